@@ -974,3 +974,332 @@ fn c06_fabitn_own_bits_are_fresh_draws() {
     kani::cover!(ok, "fabitn_head_reachable");
     std::mem::forget(r);
 }
+
+// =============================================================================================
+// C04 - commit-before-reveal of the pairwise coin toss. The WHOLE body of `shared_rng_pairwise`
+// is cut (both awaited rounds included). A round becomes a call on this environment that
+// records "sent" (with a time stamp and the payload) when it is CALLED and returns a future
+// that records "received" when it is POLLED (`.await` -> one poll): code that joins the two
+// rounds has sent its opening before it has received the commitments, sequential code has not.
+// All recording goes through `Cell`s so that two round futures may be alive at the same time.
+use std::cell::Cell;
+
+#[derive(Clone)]
+pub(crate) struct EnvSeed(pub [u8; 32]);
+impl EnvSeed {
+    fn from_seed(s: [u8; 32]) -> Self {
+        EnvSeed(s)
+    }
+}
+
+pub(crate) struct RoundFut<'a, T> {
+    clock: &'a Cell<usize>,
+    t_recv: &'a Cell<usize>,
+    out: Option<Result<T, Error>>,
+}
+impl<'a, T: Unpin> std::future::Future for RoundFut<'a, T> {
+    type Output = Result<T, Error>;
+    fn poll(self: std::pin::Pin<&mut Self>, _cx: &mut std::task::Context<'_>) -> std::task::Poll<Self::Output> {
+        let this = self.get_mut();
+        this.clock.set(this.clock.get() + 1);
+        this.t_recv.set(this.clock.get());
+        match this.out.take() {
+            Some(v) => std::task::Poll::Ready(v),
+            None => panic!("harness: round future polled twice"),
+        }
+    }
+}
+pub(crate) trait EnvNow {
+    type Out;
+    fn env_now(self) -> Self::Out;
+}
+impl<F: std::future::Future> EnvNow for F {
+    type Out = F::Output;
+    fn env_now(self) -> F::Output {
+        let mut f = std::pin::pin!(self);
+        let mut cx = std::task::Context::from_waker(std::task::Waker::noop());
+        match f.as_mut().poll(&mut cx) {
+            std::task::Poll::Ready(v) => v,
+            std::task::Poll::Pending => panic!("environment future is not ready"),
+        }
+    }
+}
+
+pub(crate) struct CoinEnv {
+    draws: [[u8; 32]; 3],
+    n_draws: Cell<usize>,
+    clock: Cell<usize>,
+    committed: Cell<[[u8; 34]; 3]>,
+    committed_len_ok: Cell<bool>,
+    n_commit: Cell<usize>,
+    comm_round_ok: bool,
+    t_comm_sent: Cell<usize>,
+    t_comm_recv: Cell<usize>,
+    n_comm_round: Cell<usize>,
+    comm_tag_to: Cell<[u8; 3]>,
+    ver_round_ok: bool,
+    t_ver_sent: Cell<usize>,
+    t_ver_recv: Cell<usize>,
+    n_ver_round: Cell<usize>,
+    revealed: Cell<[[u8; 32]; 3]>,
+    revealed_len_ok: Cell<bool>,
+    peer_comm: [[u8; 32]; 3],
+    peer_bufs: [[u8; 32]; 3],
+    verdicts: [bool; 3],
+    n_open: Cell<usize>,
+    open_len_ok: Cell<bool>,
+    open_comm_ok: Cell<bool>,
+    open_args_ok: Cell<bool>,
+    t_first_open: Cell<usize>,
+}
+
+impl CoinEnv {
+    fn new() -> Self {
+        CoinEnv {
+            draws: [kani::any(), kani::any(), kani::any()],
+            n_draws: Cell::new(0),
+            clock: Cell::new(0),
+            committed: Cell::new([[0; 34]; 3]),
+            committed_len_ok: Cell::new(true),
+            n_commit: Cell::new(0),
+            comm_round_ok: kani::any(),
+            t_comm_sent: Cell::new(0),
+            t_comm_recv: Cell::new(0),
+            n_comm_round: Cell::new(0),
+            comm_tag_to: Cell::new([0; 3]),
+            ver_round_ok: kani::any(),
+            t_ver_sent: Cell::new(0),
+            t_ver_recv: Cell::new(0),
+            n_ver_round: Cell::new(0),
+            revealed: Cell::new([[0; 32]; 3]),
+            revealed_len_ok: Cell::new(true),
+            peer_comm: [kani::any(), kani::any(), kani::any()],
+            peer_bufs: [kani::any(), kani::any(), kani::any()],
+            verdicts: [kani::any(), kani::any(), kani::any()],
+            n_open: Cell::new(0),
+            open_len_ok: Cell::new(true),
+            open_comm_ok: Cell::new(true),
+            open_args_ok: Cell::new(true),
+            t_first_open: Cell::new(0),
+        }
+    }
+    fn tick(&self) -> usize {
+        self.clock.set(self.clock.get() + 1);
+        self.clock.get()
+    }
+    fn draw(&self) -> [u8; 32] {
+        let k = self.n_draws.get();
+        self.n_draws.set(k + 1);
+        if k < 3 { self.draws[k] } else { [0; 32] }
+    }
+    /// BLAKE3 commitment: the output is a tag naming the call, the input is remembered
+    fn commit(&self, v: &[u8]) -> Commitment {
+        let k = self.n_commit.get();
+        self.n_commit.set(k + 1);
+        if v.len() == 34 && k < 3 {
+            let mut all = self.committed.get();
+            let mut b = 0;
+            while b < 34 {
+                all[k][b] = v[b];
+                b += 1;
+            }
+            self.committed.set(all);
+        } else {
+            self.committed_len_ok.set(false);
+        }
+        Commitment([(k + 1) as u8; 32])
+    }
+    fn open(&self, c: &Commitment, v: &[u8]) -> bool {
+        self.n_open.set(self.n_open.get() + 1);
+        if self.t_first_open.get() == 0 {
+            let t = self.tick();
+            self.t_first_open.set(t);
+        }
+        // which peer is this about: the id bytes appended by the code
+        if v.len() != 34 {
+            self.open_len_ok.set(false);
+            return false;
+        }
+        let who = ((v[32] as usize) << 8) | v[33] as usize;
+        if who >= 3 {
+            self.open_len_ok.set(false);
+            return false;
+        }
+        let mut csame = true;
+        let mut same = true;
+        let mut b = 0;
+        while b < 32 {
+            csame &= c.0[b] == self.peer_comm[who][b];
+            same &= v[b] == self.peer_bufs[who][b];
+            b += 1;
+        }
+        if !csame {
+            self.open_comm_ok.set(false);
+        }
+        if !same {
+            self.open_args_ok.set(false);
+        }
+        self.verdicts[who]
+    }
+    fn peer_commitments(&self, i: usize, n: usize) -> Vec<Vec<Commitment>> {
+        if n == 2 && i == 0 {
+            vec![vec![], vec![Commitment(self.peer_comm[1])]]
+        } else if n == 3 && i == 1 {
+            vec![vec![Commitment(self.peer_comm[0])], vec![], vec![Commitment(self.peer_comm[2])]]
+        } else {
+            panic!("harness: unsupported (i, n)")
+        }
+    }
+    fn peer_reveals(&self, i: usize, n: usize) -> Vec<Vec<u8>> {
+        if n == 2 && i == 0 {
+            vec![vec![], self.peer_bufs[1].to_vec()]
+        } else if n == 3 && i == 1 {
+            vec![self.peer_bufs[0].to_vec(), vec![], self.peer_bufs[2].to_vec()]
+        } else {
+            panic!("harness: unsupported (i, n)")
+        }
+    }
+    fn scatter_comm(&self, i: usize, msgs: &[Vec<Commitment>]) -> RoundFut<'_, Vec<Vec<Commitment>>> {
+        let t = self.tick();
+        self.t_comm_sent.set(t);
+        self.n_comm_round.set(self.n_comm_round.get() + 1);
+        let n = msgs.len();
+        let mut tags = self.comm_tag_to.get();
+        let mut k = 0;
+        while k < 3 {
+            if k < n && k != i {
+                tags[k] = if msgs[k].len() == 1 { msgs[k][0].0[0] } else { 0 };
+            }
+            k += 1;
+        }
+        self.comm_tag_to.set(tags);
+        let out = if self.comm_round_ok { Ok(self.peer_commitments(i, n)) } else { Err(Error::EmptyMsg) };
+        RoundFut { clock: &self.clock, t_recv: &self.t_comm_recv, out: Some(out) }
+    }
+    fn scatter_ver(&self, i: usize, msgs: &[Vec<u8>]) -> RoundFut<'_, Vec<Vec<u8>>> {
+        let t = self.tick();
+        self.t_ver_sent.set(t);
+        self.n_ver_round.set(self.n_ver_round.get() + 1);
+        let n = msgs.len();
+        let mut rev = self.revealed.get();
+        let mut k = 0;
+        while k < 3 {
+            if k < n && k != i {
+                if msgs[k].len() == 32 {
+                    let mut b = 0;
+                    while b < 32 {
+                        rev[k][b] = msgs[k][b];
+                        b += 1;
+                    }
+                } else {
+                    self.revealed_len_ok.set(false);
+                }
+            }
+            k += 1;
+        }
+        self.revealed.set(rev);
+        let out = if self.ver_round_ok { Ok(self.peer_reveals(i, n)) } else { Err(Error::EmptyMsg) };
+        RoundFut { clock: &self.clock, t_recv: &self.t_ver_recv, out: Some(out) }
+    }
+    /// what was revealed to peer k is what the commitment sent to peer k was computed from,
+    /// with the own id appended
+    fn reveal_matches_commitment(&self, i: usize, k: usize) -> bool {
+        let tag = self.comm_tag_to.get()[k] as usize;
+        if tag == 0 || tag > 3 || tag > self.n_commit.get() {
+            return false;
+        }
+        let c = self.committed.get()[tag - 1];
+        let r = self.revealed.get()[k];
+        let mut same = c[32] == ((i >> 8) as u8) && c[33] == (i as u8);
+        let mut b = 0;
+        while b < 32 {
+            same &= c[b] == r[b];
+            b += 1;
+        }
+        same
+    }
+}
+
+fn coin_order_asserts(env: &CoinEnv, ok: bool, i: usize, n: usize) {
+    // (1) nothing is revealed unless the commitment round has completed successfully before
+    if env.t_ver_sent.get() != 0 {
+        assert!(env.comm_round_ok && env.n_comm_round.get() == 1 && env.t_comm_recv.get() != 0 && env.t_comm_recv.get() < env.t_ver_sent.get(),
+            "C04:coin-toss:reveal-only-after-every-commitment-was-received");
+        assert!(env.n_ver_round.get() == 1 && env.revealed_len_ok.get() && env.committed_len_ok.get(), "C04:coin-toss:one-reveal-round-of-32-byte-seeds");
+        let mut k = 0;
+        while k < n {
+            if k != i {
+                assert!(env.reveal_matches_commitment(i, k), "C04:coin-toss:revealed-seed-is-the-committed-one(with own id)");
+            }
+            k += 1;
+        }
+    }
+    // (2) a failed commitment round ends the toss
+    if !env.comm_round_ok {
+        assert!(!ok && env.t_ver_sent.get() == 0 && env.n_open.get() == 0, "C04:coin-toss:failed-commitment-round=>Err-and-no-reveal");
+    }
+    // (3) decommitments are looked at only after the reveal round has completed
+    if env.n_open.get() != 0 {
+        assert!(env.ver_round_ok && env.t_ver_recv.get() != 0 && env.t_ver_recv.get() < env.t_first_open.get(), "C04:coin-toss:openings-checked-after-the-reveal-round");
+    }
+    if ok {
+        assert!(env.comm_round_ok && env.ver_round_ok, "C04:coin-toss:Ok=>both-rounds-succeeded");
+        assert!(env.n_open.get() == n - 1, "C04:coin-toss:Ok=>one-decommitment-check-per-peer");
+        assert!(env.open_len_ok.get(), "C04:coin-toss:Ok=>decommitment-checks-on-34-byte-values-with-a-party-id");
+        assert!(env.open_comm_ok.get(), "C04:coin-toss:Ok=>every-peer-decommitment-checked-against-that-peer's-commitment");
+        assert!(env.open_args_ok.get(), "C04:coin-toss:Ok=>every-peer-decommitment-check-uses-that-peer's-received-seed");
+        let mut k = 0;
+        while k < n {
+            if k != i {
+                assert!(env.verdicts[k], "C04:coin-toss:Ok=>every-peer-decommitment-opened");
+            }
+            k += 1;
+        }
+    }
+}
+
+/// C04 - pairwise coin toss (seeds of the OT sessions), whole body, n = 2, own index 0.
+#[kani::proof]
+#[kani::unwind(36)]
+#[kani::stub(std::fmt::format, no_format)]
+fn c04_shared_rng_pairwise_commit_before_reveal_n2() {
+    let env = CoinEnv::new();
+    let r = seg_shared_rng_pairwise_order(&env, 0, 2);
+    let ok = r.is_ok();
+    kani::cover!(ok, "coin_ok_reachable");
+    kani::cover!(!ok && env.t_ver_sent.get() == 0, "coin_err_before_reveal_reachable");
+    kani::cover!(!ok && env.t_ver_sent.get() != 0, "coin_err_after_reveal_reachable");
+    coin_order_asserts(&env, ok, 0, 2);
+    if let Ok(t) = &r {
+        let mut good = t.len() == 2 && t[0].len() == 2;
+        if good {
+            if let Some(s) = &t[0][1] {
+                let rev = env.revealed.get();
+                let mut b = 0;
+                while b < 32 {
+                    // the pair seed is what was revealed to peer 1 xor what peer 1 revealed
+                    good &= s.0[b] == rev[1][b] ^ env.peer_bufs[1][b];
+                    b += 1;
+                }
+            } else {
+                good = false;
+            }
+        }
+        assert!(good, "C04:coin-toss:pair-seed==own-revealed^peer-contribution");
+    }
+    std::mem::forget(r);
+}
+
+/// C04 - pairwise coin toss, whole body, n = 3, own index 1: a separate commitment per peer,
+/// each revealed only to that peer and only after the commitment round.
+#[kani::proof]
+#[kani::unwind(36)]
+#[kani::stub(std::fmt::format, no_format)]
+fn c04_shared_rng_pairwise_commit_before_reveal_n3() {
+    let env = CoinEnv::new();
+    let r = seg_shared_rng_pairwise_order(&env, 1, 3);
+    let ok = r.is_ok();
+    kani::cover!(ok, "coin_ok_reachable");
+    coin_order_asserts(&env, ok, 1, 3);
+    std::mem::forget(r);
+}
